@@ -219,9 +219,9 @@ def replay_imports(rp):
         pk = os.path.join(d, "olpkg_v")
         os.makedirs(os.path.join(pk, "sub"))
         log = "import builtins\nbuiltins.__dict__.setdefault('_ol_import_log', []).append(__name__)\n"
-        open(os.path.join(pk, "__init__.py"), "w").write(log + "top = 1\n")
+        open(os.path.join(pk, "__init__.py"), "w").write(log + "top = 1\n__all__ = ['top', 'mod']\n")
         open(os.path.join(pk, "mod.py"), "w").write(log + "value = 2\n")
-        open(os.path.join(pk, "sub", "__init__.py"), "w").write(log + "subv = 3\n")
+        open(os.path.join(pk, "sub", "__init__.py"), "w").write(log + "subv = 3\n__all__ = ['leaf']\n")
         open(os.path.join(pk, "sub", "leaf.py"), "w").write(log + "leafv = 4\n")
         sys.path.insert(0, d)
         progs = [
@@ -238,12 +238,14 @@ def replay_imports(rp):
             "class K2:\n    import olpkg_v.sub.leaf\nr = K2.olpkg_v.sub.leaf.leafv\n",
             "def f2():\n    global olpkg_v\n    import olpkg_v.mod\nf2()\nr = olpkg_v.mod.value\n",
             "def f3():\n    import olpkg_v.sub\n    def g():\n        return olpkg_v.sub.subv\n    return g()\nr = f3()\n",
+            "from .leaf import leafv as rv\nr = rv\n", "from ..mod import value as rv2\nfrom .. import top as rt\nr = (rv2, rt)\n", "from . import leaf as rl\nr = rl.leafv\n",
+            "import olpkg_v.sub as S\nr = S.subv\n", "import olpkg_v as P\nr = P.top\n",
         ]
         import builtins
         for src in progs:
             for k in [k for k in sys.modules if k.startswith("olpkg_v")]:
                 del sys.modules[k]
-            pre = "import builtins, sys\nbuiltins._ol_import_log = []\n[sys.modules.pop(k) for k in [k for k in sys.modules if k.startswith('olpkg_v')]]\n"
+            pre = "import builtins, sys\nbuiltins._ol_import_log = []\n[sys.modules.pop(k) for k in [k for k in sys.modules if k.startswith('olpkg_v')]]\n__package__ = 'olpkg_v.sub'\n"
             post_names = ["r", "ilog"]
             rep = RU.replay_source(src + "ilog = list(__import__('builtins')._ol_import_log)\n", "same-globals", names=post_names, prelude=pre,
                                    opts=[("ast.unparse", "chain_call", "if_expr"), ("oneliner", "list", "short_circuit")])
